@@ -39,6 +39,7 @@ Call == /\ IsEvent("call") /\ block > 0
                 /\ Ev.res = Min(buf + Ev.t, Ev.m)
                 /\ Ev.buf = buf + Ev.t - Ev.res
                 /\ Ev.t <= Ev.m + Slack                    \* OutBound: a call's decoder output is bounded by the request, not by the ratio
+                /\ Ev.req = Ev.m - buf                     \* the decoders are asked for what the parked bytes do not cover (an overshoot is not piled up)
                 /\ (Ev.h /\ Ev.dr > 0) => (Ev.d = 0 /\ Ev.t = Ev.dr)     \* a holding decoder that delivers is not fed
                 /\ Ev.h => Ev.dr >= 0                      \* a holding decoder is asked first
         /\ Ev.buf <= limit + Slack                         \* the carry-over
